@@ -282,7 +282,7 @@ func c16(r *lp.Run) {
 	rng := r.Rng.Fork(16)
 	// the resolver's shortcut through the decoded components map: references to components whose names are
 	// made of the characters of "#/components/<kind>/", or extend a sibling's name
-	refVariants(r, r.Rng.Fork(1601), "C16", r.N(150, 3000), "components renamed (names made of the prefix's characters, dotted and prefixed sibling names)")
+	refVariants(r, r.Rng.Fork(1601), "C16", r.N(150, 3000), "components renamed (names made of the prefix's characters, dotted and prefixed sibling names)", "components moved under an extension key of the same document (components keeps decoys of the same names)")
 	trees := r.N(400, 6000)
 	g := &ptrGen{rng: rng, byY: map[*yaml.Node]*pnode{}}
 	for t := 0; t < trees; t++ {
